@@ -691,17 +691,20 @@ pub fn run(ctx: &Ctx, rep: &mut Report) {
             break;
         }
         // expand the level
-        let next_lists = par_map(&frontier, threads(), |_, s| mutations(s));
+        // (in chunks: the successors of a whole level, duplicates included, do not fit comfortably in memory)
         let mut next = Vec::new();
-        for l in next_lists {
-            for m in l {
-                rep.stats.transitions += 1;
-                if seen.len() >= cap {
-                    capped = true;
-                    continue;
-                }
-                if seen.insert(key(&m)) {
-                    next.push(m);
+        for chunk in frontier.chunks(4096) {
+            let next_lists = par_map(chunk, threads(), |_, s| mutations(s));
+            for l in next_lists {
+                for m in l {
+                    rep.stats.transitions += 1;
+                    if seen.len() >= cap {
+                        capped = true;
+                        continue;
+                    }
+                    if seen.insert(key(&m)) {
+                        next.push(m);
+                    }
                 }
             }
         }
